@@ -251,23 +251,24 @@ static void property(Src& s, Case& c) {
     int n = internal::F64toa(out, d);
     if (n >= 24) c.cls("spelling>=24-bytes");
     // four threads print doubles of their own at the same time: what one thread prints must not depend on the others
-    if (s.coin(1, 150)) {
+    if (s.coin(1, 60)) {
       c.cls("four-threads");
       double base = std::fabs(d) > 1e-3 && std::fabs(d) < 1e15 ? d : 560.17583507047459;
-      double mine[4] = {base, base * 1.0009765625 + 0.37, -base * 3.3 - 17.25, base / 7.1 + 1234.5678};
+      // (thread 0 prints the double under test itself, as the very first value of a thread that has never printed before)
+      double mine[4] = {d, base * 1.0009765625 + 0.37, -base * 3.3 - 17.25, base / 7.1 + 1234.5678};
       std::string want[4], bad[4];
       for (int t = 0; t < 4; t++) { char o[40]; int k = internal::F64toa(o, mine[t]); want[t].assign(o, (size_t)(k > 0 ? k : 0)); }
       std::vector<std::thread> th;
       for (int t = 0; t < 4; t++)
         th.emplace_back([&, t] {
           char o[40];
-          for (int rep = 0; rep < 3000 && bad[t].empty(); rep++) {
+          for (int rep = 0; rep < 1200 && bad[t].empty(); rep++) {
             int k = internal::F64toa(o, mine[t]);
             if (k <= 0 || std::string(o, (size_t)k) != want[t]) bad[t] = std::string(o, (size_t)(k > 0 ? k : 0));
           }
         });
       for (auto& x : th) x.join();
-      c.subevals += 12000;
+      c.subevals += 4800;
       for (int t = 0; t < 4 && m.empty(); t++)
         if (!bad[t].empty()) m = "with four threads printing their own doubles: " + want[t] + " came out as " + bad[t];
     }
